@@ -47,6 +47,12 @@ class ModelGen:
             if self.f["inheritance"] and i > 0 and rnd.random() < 0.6:
                 k = rnd.randint(1, min(2, i))
                 bases = rnd.sample(tops[:i], k)
+                if self.f.get("nested_bases", True) and rnd.random() < 0.25:
+                    # a child space of an earlier space as (additional) base
+                    kids = [c.path() for t0 in tops[:i] for c in self.rm.get(t0).children.values()
+                            if c.formula is None and self.rm.get(t0).formula is None]
+                    if kids:
+                        bases = (bases + [rnd.choice(kids)])[-2:]
                 probe_space = R.RSpace("_", self.rm)
                 probe_space.bases = [self.rm.get(b) for b in bases]
                 try:
